@@ -45,6 +45,12 @@ func crashEngine(prop string, power bool) *Engine {
 	return &Engine{Name: "CRASH", Run: func(seed uint64, tier string, res *Result) {
 		r := simrt.NewRand(seed ^ 0xC0FFEE)
 		c := crashGenCfg(r, tier)
+		power := power
+		if prop == "C03" && r.Pct(35) {
+			// C03 also quantifies over the power-loss model: a third of its histories
+			// are judged on power-loss images (drops and tears of un-synced data)
+			power = true
+		}
 		if power {
 			c.MaxOps = 9
 			if tier == "thorough" {
